@@ -493,7 +493,7 @@ def gen_outside(w):
                 lines.append('        let _ = core::mem::offset_of!(%s%s, %s);' % (mp, nm, r[2]))
         fns = list(inner[3]) + (list(inner[4][0]) if inner[4] is not None else [])
         for f in fns:
-            if f[1] == 'pub' and isinstance(f[2], str):
+            if f[1] == 'pub' and isinstance(f[2], str) and not f[2].startswith('_'):      # `_`-prefixed functions are internal: no wrapper is emitted
                 lines.append('        let _ = %s%s::%s;' % (mp, nm, f[2]))
     return '    pub fn outside_probe_w%d() {\n%s\n    }' % (w.idx, '\n'.join(lines))
 
